@@ -22,7 +22,7 @@ pub enum Origin {
 
 /// a protected header for structure tests: its model, and the coset value (either built or decoded)
 pub fn gen_prot_variant(ctx: &mut Ctx, origin: Origin) -> MProt {
-    let o = if origin == Origin::Built { GenOpts::built() } else { GenOpts { styled_prot: 255, built: false, max_depth: 2 } };
+    let o = if origin == Origin::Built { GenOpts::built() } else { GenOpts { styled_prot: 255, built: false, max_depth: 2, mixed: false } };
     let mut header = match ctx.rng.below(10) {
         0 => MHeader::default(),
         8 => {
@@ -681,6 +681,38 @@ pub fn both_ivs_case(ctx: &mut Ctx, family: &str, aad: &[u8], payload: &[u8]) {
         if other.as_deref() == Some(&b[..]) {
             ctx.violation(&format!("{}/hand-built-header-with-both-ivs/collision", ctx.prop), format!("a protected header holding IV and Partial IV yields the same {} bytes as the same header {}", family, name), J::obj(vec![("bytes", J::Str(short(&b)))]));
         }
+    }
+}
+
+/// Birthday workload for the structures: a protected header built in memory with 2^17 pairwise
+/// distinct 8-character text labels must serialise (its labels are distinct) and contribute exactly
+/// its encoded map; with 2^17 labels a 32-bit fingerprint collides with probability 0.86.
+pub fn birthday_structure_case(ctx: &mut Ctx, family: &str) {
+    let labels = super::common::distinct_labels(&mut ctx.rng, 0, 1 << 17);
+    let header = MHeader { rest: labels.into_iter().enumerate().map(|(i, l)| (l, Item::Int((i % 20) as i128))).collect(), ..Default::default() };
+    let prot = MProt { bytes: None, header };
+    let cp = match coset_prot(&prot) {
+        Some(p) => p,
+        None => return,
+    };
+    let pb = model::prot_slot(&prot);
+    let (aad, payload): (&[u8], &[u8]) = (&[1, 2, 3], &[4, 5]);
+    ctx.eval();
+    ctx.count("birthday-cases");
+    let (got, want, helper) = match family {
+        "Sig_structure" => (guard(|| coset::sig_structure_data(SignatureContext::CoseSign1, cp, None, aad, payload)), model::structure("Signature1", &[&pb, aad, payload]), "sig_structure_data"),
+        "MAC_structure" => (guard(|| coset::mac_structure_data(MacContext::CoseMac0, cp, aad, payload)), model::structure("MAC0", &[&pb, aad, payload]), "mac_structure_data"),
+        _ => (guard(|| coset::enc_structure_data(EncryptionContext::CoseEncrypt0, cp, aad)), model::structure("Encrypt0", &[&pb, aad]), "enc_structure_data"),
+    };
+    match got {
+        Ok(g) => {
+            if g != want {
+                ctx.violation(&format!("{}/birthday-structure-bytes/{}", ctx.prop, helper), format!("{} of a built protected header with 2^17 pairwise distinct text labels differs from the {} of RFC 8152 ({} vs {} bytes)", helper, family, g.len(), want.len()), J::Null);
+            } else {
+                ctx.nontrivial_bytes(&g[..4096]);
+            }
+        }
+        Err(p) => ctx.violation(&format!("{}/birthday-structure-refused/{}", ctx.prop, helper), format!("{} panicked at {} for a built protected header with 2^17 pairwise distinct text labels (nothing in it is a duplicate)", helper, p.site()), J::Null),
     }
 }
 
